@@ -15,6 +15,7 @@ import (
 	"io"
 	iofs "io/fs"
 	"path"
+	"runtime"
 	"sort"
 	"strconv"
 	"strings"
@@ -108,6 +109,50 @@ var (
 	nextID   int64
 	escapes  sync.Map // goroutine-agnostic list of escaped paths: path -> true
 )
+
+// ---- scheduling points ----
+//
+// A simulated task (one goroutine of a baton scheduler) may register a hook that is called, with no lock
+// held, before every file-system call it makes: the scheduler can then let another task's file-system
+// calls happen in between (between creating a temporary file and renaming it, say). Hooks are per
+// goroutine; nothing is looked up while no hook is registered anywhere.
+
+var (
+	opHooks     sync.Map // goroutine id -> func(kind string)
+	opHookCount int32
+)
+
+func goid() string {
+	var buf [64]byte
+	n := runtime.Stack(buf[:], false)
+	f := strings.Fields(string(buf[:n]))
+	if len(f) >= 2 {
+		return f[1]
+	}
+	return ""
+}
+
+// SetOpHook registers h for the calling goroutine; ClearOpHook removes it.
+func SetOpHook(h func(kind string)) {
+	if _, had := opHooks.Swap(goid(), h); !had {
+		atomic.AddInt32(&opHookCount, 1)
+	}
+}
+
+func ClearOpHook() {
+	if _, had := opHooks.LoadAndDelete(goid()); had {
+		atomic.AddInt32(&opHookCount, -1)
+	}
+}
+
+func pre(kind string) {
+	if atomic.LoadInt32(&opHookCount) == 0 {
+		return
+	}
+	if h, ok := opHooks.Load(goid()); ok {
+		h.(func(string))(kind)
+	}
+}
 
 // New creates and mounts a new disk.
 func New() *FS {
@@ -303,6 +348,7 @@ type File struct {
 func (fl *File) Name() string { return fl.name }
 
 func OpenFile(name string, flag int, perm FileMode) (*File, error) {
+	pre("open")
 	f, p, err := resolve(name)
 	if err != nil {
 		return nil, err
@@ -358,6 +404,7 @@ func Create(name string) (*File, error) {
 }
 
 func CreateTemp(dir, pattern string) (*File, error) {
+	pre("createtemp")
 	if dir == "" {
 		dir = TempDir()
 	}
@@ -387,6 +434,7 @@ func CreateTemp(dir, pattern string) (*File, error) {
 func TempDir() string { return "/tmp" }
 
 func (fl *File) Write(b []byte) (int, error) {
+	pre("write")
 	if fl.closed {
 		return 0, iofs.ErrClosed
 	}
@@ -637,6 +685,7 @@ func MkdirAll(name string, perm FileMode) error {
 }
 
 func ReadDir(name string) ([]DirEntry, error) {
+	pre("readdir")
 	f, p, err := resolve(name)
 	if err != nil {
 		return nil, err
@@ -675,6 +724,7 @@ func ReadDir(name string) ([]DirEntry, error) {
 }
 
 func Rename(oldname, newname string) error {
+	pre("rename")
 	f, po, err := resolve(oldname)
 	if err != nil {
 		return err
@@ -711,6 +761,7 @@ func Rename(oldname, newname string) error {
 }
 
 func Remove(name string) error {
+	pre("remove")
 	f, p, err := resolve(name)
 	if err != nil {
 		return err
